@@ -132,6 +132,12 @@ class YAMLSpecification(Specification):
             )
             spec = yaml.load(stream)
 
+        if not isinstance(spec, dict):
+            raise jsonschema.ValidationError(
+                "A study specification must be a mapping of blocks, but "
+                "found '{}'.".format(type(spec).__name__)
+            )
+
         logger.debug("Loaded specification -- \n%s", spec.get("description"))
         specification = cls()
         specification.path = None
@@ -295,6 +301,12 @@ class YAMLSpecification(Specification):
                     "one step in its workflow."
                 )
 
+            if not isinstance(self.study, list):
+                raise jsonschema.ValidationError(
+                    "The study block must be a list of steps, but found "
+                    "'{}'.".format(type(self.study).__name__)
+                )
+
             logger.debug(
                 "Verified that a study block exists. -- verifying " "steps."
             )
@@ -365,6 +377,13 @@ class YAMLSpecification(Specification):
         3. If the label is a list, its length must match the value length.
         """
         try:
+            if not isinstance(self.globals, dict):
+                raise jsonschema.ValidationError(
+                    "The global.parameters block must be a mapping of "
+                    "parameter names, but found '{}'.".format(
+                        type(self.globals).__name__)
+                )
+
             if self.globals:
                 global_names = set()
                 values_len = -1
